@@ -25,6 +25,9 @@ pub enum Policy {
     /// non-preemptive (lowest index first) except at the given global step numbers, where the
     /// actor chosen is the (n mod runnable-others)-th other runnable actor
     Preempt(Vec<(u32, u8)>),
+    /// explicit script: the actor to run at each step, in order; an entry whose actor is finished or
+    /// blocked is skipped; after the script: non-preemptive (lowest index first)
+    Script(Vec<u8>),
 }
 
 pub struct Trace {
@@ -70,8 +73,17 @@ async fn step<T>(idx: usize, fut: &mut Actor<'_, T>, out: &mut Option<T>) -> Ste
 }
 
 /// Run all actors to completion under `policy`. Returns their outputs and the trace.
-pub async fn run_actors<'a, T>(mut actors: Vec<Actor<'a, T>>, policy: &Policy, max_steps: usize) -> (Vec<Option<T>>, Trace) {
+pub async fn run_actors<'a, T>(actors: Vec<Actor<'a, T>>, policy: &Policy, max_steps: usize) -> (Vec<Option<T>>, Trace) {
+    run_actors_d(actors, policy, max_steps, 0, 0).await
+}
+
+/// As `run_actors`; the last `daemons` actors are background activities that need not finish: they run only
+/// when the schedule names them (one step at a time, never "kept") or when nobody else can run; the run ends
+/// when all other actors are done, after `tail_rounds` further round-robin steps of the daemons.
+pub async fn run_actors_d<'a, T>(mut actors: Vec<Actor<'a, T>>, policy: &Policy, max_steps: usize, daemons: usize, tail_rounds: usize) -> (Vec<Option<T>>, Trace) {
     let n = actors.len();
+    let fg = n - daemons;
+    let mut si = 0usize;
     let mut outs: Vec<Option<T>> = (0..n).map(|_| None).collect();
     let mut done = vec![false; n];
     let mut blocked = vec![false; n];
@@ -80,7 +92,7 @@ pub async fn run_actors<'a, T>(mut actors: Vec<Actor<'a, T>>, policy: &Policy, m
     let mut step_no = 0u32;
     let mut bi = 0usize;
     let mut all_blocked_rounds = 0;
-    while done.iter().any(|d| !d) {
+    while done[..fg].iter().any(|d| !d) {
         if trace.steps.len() >= max_steps {
             trace.deadlock = true;
             break;
@@ -99,7 +111,7 @@ pub async fn run_actors<'a, T>(mut actors: Vec<Actor<'a, T>>, policy: &Policy, m
             }
             continue;
         }
-        let cur_ok = runnable.contains(&cur);
+        let cur_ok = runnable.contains(&cur) && cur < fg;
         let others: Vec<usize> = runnable.iter().cloned().filter(|i| *i != cur).collect();
         let pick = match policy {
             Policy::Bytes(b) => {
@@ -113,6 +125,19 @@ pub async fn run_actors<'a, T>(mut actors: Vec<Actor<'a, T>>, policy: &Policy, m
                     }
                 } else {
                     others[(c as usize - 1) % others.len()]
+                }
+            }
+            Policy::Script(sc) => {
+                while si < sc.len() && !runnable.contains(&(sc[si] as usize)) {
+                    si += 1;
+                }
+                if si < sc.len() {
+                    si += 1;
+                    sc[si - 1] as usize
+                } else if cur_ok {
+                    cur
+                } else {
+                    runnable[0]
                 }
             }
             Policy::Preempt(ps) => match ps.iter().find(|(s, _)| *s == step_no) {
@@ -144,6 +169,18 @@ pub async fn run_actors<'a, T>(mut actors: Vec<Actor<'a, T>>, policy: &Policy, m
                 all_blocked_rounds = 0;
             }
             StepRes::Blocked => blocked[cur] = true,
+        }
+    }
+    if !trace.deadlock {
+        for _ in 0..tail_rounds {
+            for d in fg..n {
+                if !done[d] {
+                    trace.steps.push(d as u8);
+                    if step(d, &mut actors[d], &mut outs[d]).await == StepRes::Done {
+                        done[d] = true;
+                    }
+                }
+            }
         }
     }
     (outs, trace)
